@@ -92,12 +92,15 @@ def run(job, mon):
               act0, act1)
 
     fj = jax.jit(f)
-    for s in range(4):
-      if s % 2 == 0:
+    for s in range(5):
+      if s == 4:
+        # special points: default pose at rest / tiny motion, zero control
+        q, qd = gen.special_state(mj, 'zero' if c % 2 else 'tiny', rng)
+      elif s % 2 == 0:
         q, qd = gen.rand_state(rng, mj)
       else:
         q, qd = gen.state_inside_limits(rng, mj, frac=0.7, qscale=2.0)
-      ctrl = rng.uniform(-2, 2, mj.nu)
+      ctrl = rng.uniform(-2, 2, mj.nu) if s < 4 else np.zeros(mj.nu)
       out = [np.asarray(o) for o in fj(jp.array(q), jp.array(qd),
                                        jp.array(ctrl))]
       m, bias, passive, tau, smooth, q2, qd2, act0, act1 = out
